@@ -135,7 +135,7 @@ inline std::string const &alphabet()
   return a;
 }
 constexpr std::size_t alpha_main = 10; // the first 10 are used for grammar literals; '\t' only by skippers/inputs
-constexpr int n_skippers = 6;
+constexpr int n_skippers = 8;
 
 // ------------------------------------------------------------------------------------- reference model
 struct res
@@ -165,7 +165,9 @@ struct model
     return is_in(set, c);
   }
   // the six skippers: 0 epsilon, 1 space() = *{' ','\n','\t'}, 2 literal ' ' (fails unless a blank follows),
-  // 3 *literal ' ', 4 literal ' ' >> *char_set{' ','\t'}, 5 char_set{' ','b'} (exactly one, may fail)
+  // 3 *literal ' ', 4 literal ' ' >> *char_set{' ','\t'}, 5 char_set{' ','b'} (exactly one, may fail),
+  // 6 *(literal '-' >> literal '-'), 7 *(char_set{' ','\t'} >> literal ' '): repetitions of a two-part
+  // skipper - an iteration that fails in its second part must give back what its first part consumed
   bool skip(int k, std::size_t &p) const
   {
     std::size_t const before = p;
@@ -180,7 +182,23 @@ struct model
       r = skip1(p, " ");
       if (r) while (p < in.size() && is_in(" \t", in[p])) ++p;
       break;
-    default: r = skip1(p, " b"); break;
+    case 5: r = skip1(p, " b"); break;
+    case 6:
+      for (;;)
+      {
+        std::size_t q = p;
+        if (!skip1(q, "-") || !skip1(q, "-")) break;
+        p = q;
+      }
+      break;
+    default:
+      for (;;)
+      {
+        std::size_t q = p;
+        if (!skip1(q, " \t") || !skip1(q, " ")) break;
+        p = q;
+      }
+      break;
     }
     if (r && p > before) skipper_consumed = true;
     return r;
@@ -252,7 +270,7 @@ struct model
       for (char c : d.val)
       {
         v = v * 10 + (c - '0');
-        if (v > 2147483647LL) return fail(d.pos); // the digit string does not fit the type
+        if (v > 2147483647LL + (neg ? 1 : 0)) return fail(d.pos); // the signed number does not fit the type (documented: the string, sign included, is converted)
       }
       return res{true, false, "i" + std::to_string(neg ? -v : v) + (leaves ? ";" : ""), d.pos};
     }
@@ -540,7 +558,9 @@ struct deriver
     case 2: return " ";
     case 3: return c.flag() ? " " : "";
     case 4: return c.flag() ? " " : " \t";
-    default: return c.flag() ? " " : "b";
+    case 5: return c.flag() ? " " : "b";
+    case 6: return c.flag() ? "--" : (c.flag() ? "" : "----");
+    default: return c.flag() ? "\t " : (c.flag() ? "" : "  \t ");
     }
   }
   static std::string notin(std::string const &set)
@@ -644,7 +664,7 @@ inline peg_case decode(Ints const &ints)
 inline std::string describe(Ints const &ints, char const *chname)
 {
   peg_case const pc = decode(ints);
-  static char const *const sks[] = {"epsilon", "space", "literal' '", "*literal' '", "literal' '>>*set{' ','\\t'}", "set{' ','b'}"};
+  static char const *const sks[] = {"epsilon", "space", "literal' '", "*literal' '", "literal' '>>*set{' ','\\t'}", "set{' ','b'}", "*(literal'-'>>literal'-')", "*(set{' ','\\t'}>>literal' ')"};
   std::string r = std::string("<") + chname + "> grammar: " + show(pc.top);
   for (std::size_t i = 0; i < pc.rules.size(); ++i) r += " rule" + std::to_string(i) + ": " + show(pc.rules[i]);
   r += std::string(" skipper: ") + sks[pc.skipper] + " input: \"";
@@ -683,7 +703,9 @@ struct real
       case 2: return sk::run(lit{w(' ')}, s);
       case 3: return sk::run(*lit{w(' ')}, s);
       case 4: return sk::run(lit{w(' ')} >> *set{w(' '), w('\t')}, s);
-      default: return sk::run(set{w(' '), w('b')}, s);
+      case 5: return sk::run(set{w(' '), w('b')}, s);
+      case 6: return sk::run(*(lit{w('-')} >> lit{w('-')}), s);
+      default: return sk::run(*(set{w(' '), w('\t')} >> lit{w(' ')}), s);
       }
     }
   };
